@@ -3,7 +3,8 @@
 // setup(); exponents are arbitrary (-EMAX..EMAX), applyScaling is the real one. Reference = the dense copy `d`
 // taken before scaling.  Entries:
 //   h_c09_getters_vectors : getColVectorUnscaled/getRowVectorUnscaled (-> SPxScaler::getColUnscaled/getRowUnscaled)
-//   h_c09_getters_absmax  : get{Col,Row}{Max,Min}AbsUnscaled, SPxLPBase::maxAbsNzo(true)/minAbsNzo(true)
+//   h_c09_getters_absmax  : get{Col,Row}{Max,Min}AbsUnscaled
+//   h_c09_getters_nzo     : SPxLPBase::maxAbsNzo(true)/minAbsNzo(true)   (thorough tier)
 //   h_c09_getters_scalars : SPxLPBase::{lower,upper,lhs,rhs,obj,maxObj}Unscaled(i) incl. infinite bounds, and the vector forms
 //                           get{Lower,Upper,Lhs,Rhs}Unscaled(vec), maxObjUnscaled(vec), getObjUnscaled(vec) on the FINITE entries
 //   h_c09_getters_vecinf  : the vector forms on the INFINITE entries: an infinite bound/side must still be infinite
@@ -80,20 +81,17 @@ extern "C" void h_c09_getters_vectors()
    vp_cover(1);
 }
 
-// max/min absolute value of the unscaled rows/columns/matrix against a dense reference over the original matrix
+// max/min absolute value of the unscaled rows/columns against a dense reference over the original matrix
 extern "C" void h_c09_getters_absmax()
 {
    LP lp; Dense<NR, NC> d; Sc sc; int ce[NC], re[NR];
    scaled_lp(lp, d, sc, ce, re);
-   double allmax = 0.0, allmin = (double)infinity;
    for(int j = 0; j < NC; ++j)
    {
       double mx = 0.0, mi = (double)infinity;
       for(int i = 0; i < NR; ++i) if(HAS(i, j)) { double x = dabs(d.a[i][j]); if(x > mx) mx = x; if(x < mi) mi = x; }
       vp_assert(same_bits(sc.getColMaxAbsUnscaled(lp, j), mx), 5);
       vp_assert(same_bits(sc.getColMinAbsUnscaled(lp, j), mi), 6);
-      if(mx > allmax) allmax = mx;
-      if(mi < allmin) allmin = mi;
    }
    for(int i = 0; i < NR; ++i)
    {
@@ -102,6 +100,15 @@ extern "C" void h_c09_getters_absmax()
       vp_assert(same_bits(sc.getRowMaxAbsUnscaled(lp, i), mx), 10);
       vp_assert(same_bits(sc.getRowMinAbsUnscaled(lp, i), mi), 11);
    }
+   vp_cover(1);
+}
+// SPxLPBase::maxAbsNzo(true)/minAbsNzo(true) on the scaled LP = max/min absolute nonzero of the original matrix
+extern "C" void h_c09_getters_nzo()
+{
+   LP lp; Dense<NR, NC> d; Sc sc; int ce[NC], re[NR];
+   scaled_lp(lp, d, sc, ce, re);
+   double allmax = 0.0, allmin = (double)infinity;
+   for(int j = 0; j < NC; ++j) for(int i = 0; i < NR; ++i) if(HAS(i, j)) { double x = dabs(d.a[i][j]); if(x > allmax) allmax = x; if(x < allmin) allmin = x; }
    vp_assert(same_bits(lp.maxAbsNzo(true), allmax), 12);
    vp_assert(same_bits(lp.minAbsNzo(true), allmin), 13);
    vp_cover(1);
